@@ -9,6 +9,7 @@ import (
 	"crypto/sha1"
 	"encoding/json"
 	"fmt"
+	"reflect"
 	"sort"
 	"strings"
 
@@ -106,7 +107,7 @@ func (r *reusePass) add(c *Case, text string) {
 	h := sha1.Sum([]byte(text))
 	// a second instance per (operator, attributes) sees the cases of EVERY element type in turn: nothing an instance learns
 	// about the type of one input holds for the next
-	for _, key := range []string{key, fmt.Sprintf("anytype|%s|%s|%d", c.Op, a, c.Nout)} {
+	for _, key := range []string{key, fmt.Sprintf("anytype|%s|%s|%d", c.Op, a, c.Nout), fmt.Sprintf("refill|%s|%s|%d", c.Op, a, c.Nout)} {
 		g := append(r.groups[key], reuseItem{c, text, string(h[:])})
 		if len(g) >= 2*reuseMaxPerGroup {
 			// keep the reuseMaxPerGroup smallest hashes: the retained set does not depend on the arrival order
@@ -149,6 +150,24 @@ func (r *reusePass) run() []reuseVerdict {
 		if len(items) < 2 {
 			continue
 		}
+		// "refill" groups: cases with the same input element types and shapes follow each other and are executed on the SAME
+		// tensor objects, refilled in place with the values of the next case (a caller that keeps one set of buffers)
+		refill := strings.HasPrefix(k, "refill|")
+		inSig := func(c *Case) string {
+			s := ""
+			for _, t := range c.Inputs {
+				if t.Nil {
+					s += "nil;"
+				} else {
+					s += fmt.Sprintf("%s%v;", t.Dt, t.Shape)
+				}
+			}
+			return s
+		}
+		if refill {
+			sort.SliceStable(items, func(i, j int) bool { return inSig(items[i].c) < inSig(items[j].c) })
+		}
+		buffers := map[string][]tensor.Tensor{}
 		var op ops.Operator
 		first := items[0].c
 		ins, outs := ioNames(first)
@@ -196,6 +215,22 @@ func (r *reusePass) run() []reuseVerdict {
 			if err != nil {
 				continue
 			}
+			if refill && len(c.Same) == 0 {
+				sg := inSig(c)
+				if old, ok := buffers[sg]; ok && len(old) == len(inputs) {
+					for p := range inputs {
+						if inputs[p] == nil || old[p] == nil {
+							continue
+						}
+						dst, src := reflect.ValueOf(old[p].Data()), reflect.ValueOf(inputs[p].Data())
+						if dst.Kind() == reflect.Slice && src.Kind() == reflect.Slice && dst.Type() == src.Type() && dst.Len() == src.Len() && dst.Len() > 0 {
+							reflect.Copy(dst, src)
+							inputs[p] = old[p]
+						}
+					}
+				}
+				buffers[sg] = inputs
+			}
 			var results []tensor.Tensor
 			obs := guard(func() Observation {
 				v, err := op.ValidateInputs(inputs)
@@ -220,6 +255,9 @@ func (r *reusePass) run() []reuseVerdict {
 			}
 			// an earlier result is a value the caller owns: a later application of the same instance leaves it as it was
 			for _, h := range []*held{last, heldBySig[sig]} {
+				if refill {
+					break // (a result may be an operand object, and those are refilled here)
+				}
 				if rv := recheck(h, i+1); rv != nil {
 					out = append(out, *rv)
 				}
